@@ -523,7 +523,18 @@ func c08next(r *verifhlib.Rng, capacity uint64, nkeys int, malformed bool, s *c0
 			miss = true
 			return 0
 		}
-		// prefer recent handles and handles whose blob is gone
+		// prefer handles whose blob is gone, then recent handles
+		if r.Chance(35) {
+			var stale []int
+			for i, f := range s.handles {
+				if f.Size() < 0 {
+					stale = append(stale, i)
+				}
+			}
+			if len(stale) > 0 {
+				return stale[r.Intn(len(stale))]
+			}
+		}
 		if r.Chance(60) {
 			return len(s.handles) - 1 - r.Intn(min(len(s.handles), 4))
 		}
@@ -538,13 +549,13 @@ func c08next(r *verifhlib.Rng, capacity uint64, nkeys int, malformed bool, s *c0
 		}
 		var o c08op
 		switch {
-		case k < 8:
+		case k < 10:
 			o = c08op{kind: c08Create, key: pickKey(func(k int) bool { return !exists[k] }), size: size()}
 		case k < 14:
 			o = c08op{kind: c08CreateW, key: pickKey(func(k int) bool { return !exists[k] }), size: size(), data: r.Bytes(r.Intn(6))}
-		case k < 24:
+		case k < 26:
 			o = c08op{kind: c08MarkComplete, key: pickKey(func(k int) bool { return exists[k] && !complete[k] })}
-		case k < 32:
+		case k < 33:
 			o = c08op{kind: c08Open, key: pickKey(any)}
 			o.scope = scopeFor(o.key)
 		case k < 36:
@@ -553,35 +564,35 @@ func c08next(r *verifhlib.Rng, capacity uint64, nkeys int, malformed bool, s *c0
 		case k < 38:
 			o = c08op{kind: c08OpenWriteAt, key: pickKey(any), off: int64(r.Intn(8)), data: r.Bytes(1 + r.Intn(4))}
 			o.scope = scopeFor(o.key)
-		case k < 43:
+		case k < 42:
 			o = c08op{kind: c08Delete, key: pickKey(any)}
 			o.scope = scopeFor(o.key)
-		case k < 47:
+		case k < 45:
 			o = c08op{kind: c08Ban, key: pickKey(func(k int) bool { return exists[k] && !banned[k] })}
 			o.scope = scopeFor(o.key)
-		case k < 52:
+		case k < 49:
 			o = c08op{kind: c08Unban, key: pickKey(func(k int) bool { return exists[k] && banned[k] })}
 			o.scope = scopeFor(o.key)
-		case k < 54:
+		case k < 50:
 			o = c08op{kind: c08Has, key: r.Intn(nkeys), scope: r.Intn(3)}
-		case k < 56:
+		case k < 52:
 			o = c08op{kind: c08Stat, key: pickKey(any)}
 			o.scope = scopeFor(o.key)
-		case k < 58:
+		case k < 54:
 			o = c08op{kind: c08List, scope: r.Intn(3)}
-		case k < 61:
+		case k < 59:
 			o = c08op{kind: c08SetMd, key: pickKey(any), sfx: r.Intn(4), data: r.Bytes(r.Intn(5))}
 			o.scope = scopeFor(o.key)
-		case k < 64:
+		case k < 63:
 			o = c08op{kind: c08GetMd, key: pickKey(any), sfx: r.Intn(4)}
 			o.scope = scopeFor(o.key)
 		case k < 65:
 			o = c08op{kind: c08DelMd, key: pickKey(any), sfx: r.Intn(4)}
 			o.scope = scopeFor(o.key)
-		case k < 66:
+		case k < 67:
 			o = c08op{kind: c08ListMd, key: pickKey(any)}
 			o.scope = scopeFor(o.key)
-		case k < 73:
+		case k < 74:
 			o = c08op{kind: c08HRead, h: pickHandle(), n: []int{0, 1, 2, 3, 8}[r.Intn(5)]}
 		case k < 79:
 			o = c08op{kind: c08HReadAt, h: pickHandle(), n: []int{0, 1, 2, 4, 8}[r.Intn(5)], off: int64(r.Intn(7))}
@@ -811,6 +822,6 @@ func c08driver(ctx *verifhlib.Ctx) {
 		if malformed {
 			kind = "random-malformed"
 		}
-		emitg(capacity, c08gen(rr, capacity, rr.Range(3, 5), rr.Range(6, maxLen), malformed), kind)
+		emitg(capacity, c08gen(rr, capacity, rr.Range(3, 5), rr.Range(10, maxLen), malformed), kind)
 	}
 }
